@@ -1,5 +1,64 @@
-/- Oracle driver for C16 (stub: replaced when the property's model is built). -/
+/- Oracle for C16: runs the model of duct (`build`, then `Morphism.apply` with the recorder that
+fails at callback index k) on a program description and prints the harness's line format.
+
+line in:   P<pid> <k> from <A> join <B> <C> liftF <B> <C> wrapF <B> unit <B> yield <B> ...
+line out:  n=<callbacks invoked> err=<nil|E<k>> | <event> <event> ...      (or ill-typed / bad-op)
+-/
+import Golem.Model.Duct
 import Golem.Driver.Util
 namespace Golem.Driver.C16
-def main : IO Unit := IO.eprintln "oracle: no driver for C16 yet"
+open Golem.Model.Duct Golem.Driver
+
+/-- `[]` → slice, `*` → pointer, `any` → the unnamed interface type, anything else a named type
+(`Void` = duct.Void). -/
+def parseTy : List Char → Ty
+  | '[' :: ']' :: rest => .slice (parseTy rest)
+  | '*' :: rest => .ptr (parseTy rest)
+  | cs => if cs == "any".toList then .anon else .named (String.ofList cs)
+
+def ty (s : String) : Ty := parseTy s.toList
+
+def parseSteps : Nat → List String → Option (List Step)
+  | _, [] => some []
+  | 0, _ => none
+  | fuel + 1, "join" :: b :: c :: rest => (parseSteps fuel rest).map (Step.join (ty b) (ty c) :: ·)
+  | fuel + 1, "liftF" :: b :: c :: rest => (parseSteps fuel rest).map (Step.liftF (ty b) (ty c) :: ·)
+  | fuel + 1, "wrapF" :: b :: rest => (parseSteps fuel rest).map (Step.wrapF (ty b) :: ·)
+  | fuel + 1, "unit" :: b :: rest => (parseSteps fuel rest).map (Step.unit (ty b) :: ·)
+  | fuel + 1, "yield" :: b :: rest => (parseSteps fuel rest).map (Step.yield (ty b) :: ·)
+  | _, _ => none
+
+def bit (b : Bool) : String := if b then "1" else "0"
+
+def showCb : Cb → String
+  | .enterMorphism => "+morph" | .leaveMorphism => "-morph"
+  | .enterSeq => "+seq" | .leaveSeq => "-seq"
+  | .enterMap => "+map" | .leaveMap => "-map"
+  | .enterFrom => "+from" | .leaveFrom => "-from"
+  | .enterYield => "+yield" | .leaveYield => "-yield"
+
+def showNode : Ast → String
+  | .afrom t => t
+  | .ayield t => t
+  | .amap a b => a ++ ">" ++ b
+  | .aseq r d s => s!"r{bit r}d{bit d}n{s.length}"
+
+def showEvent (e : Event) : String := s!"{showCb e.cb}:{e.depth}:{showNode e.node}"
+
+def step (line : String) : String :=
+  match words line with
+  | pid :: k :: "from" :: a :: rest =>
+    if !pid.startsWith "P" then "bad-op" else
+    match k.toNat?, parseSteps rest.length rest with
+    | some k, some steps =>
+      let A := ty a
+      if !(decide (WellTyped A steps)) then "ill-typed" else
+      let code := build A steps
+      let ((n, log), err) := Morphism.apply code (failAt k s!"E{k}") (0, [])
+      let es := match err with | some e => e | none => "nil"
+      s!"n={n} err={es} | {" ".intercalate (log.map showEvent)}"
+    | _, _ => "bad-op"
+  | _ => "bad-op"
+
+def main : IO Unit := eachLine step
 end Golem.Driver.C16
